@@ -2110,7 +2110,10 @@ var rpcDirected = []string{
 	"1lB,pRQ0:boot:s1,lC0:5:k0,lP0:0:0,pRQ0:ok:r0,lH0:0,lA1:0,pC1001:e0:0,pDr0:e0,pF1001:0",
 	"1lB,pRQ0:boot:s1,lC0:5:k0,lQ0:0:0,pRQ0:ok:r0,fG,lH0:0,lA1:0,pC1001:e0:0,pDr0:e0", // the Return arrives while the pipelined call is being built
 	"1lB,pRQ0:boot:s1,lC0:5:k0,lP0:0:0,pRQ0:ok:r0,lH0:0,lA1:0,pF777:0",               // the peer breaks the protocol instead of looping back
-	"1lB,pRQ0:boot:s1,lC0:5:k0,lP0:0:0,pRQ0:ok:r0,lH0:0,lA1:0,fN1,lZ",                // Close (abort message cannot be created) while embargoed
+	"1lB,pRQ0:boot:s1,lC0:5:k0,lP0:0:0,pRQ0:ok:r0,lH0:0,lA1:0,fN1,lZ,lC1:0",          // Close (abort message cannot be created) while embargoed; a call afterwards
+	"1lB,pRQ0:boot:s1,lC0:5:k0,lP0:0:0,pRQ0:ok:r0,lH0:0,lA1:0,fS1,lZ,lC1:0",          // … the abort message cannot be sent
+	"1lB,pRQ0:boot:s1,pR0:ok,lB",                                                     // a Return for a question slot that is in range but empty
+	"1lB,lB,pRQ1:boot:s1,pR1:ok:s2,lC0:0",                                            // … while other questions are outstanding
 	"1lB,pRQ0:boot:s1,lC0:5:k0,lP0:0:0,pRQ0:ok:r0,lY0,pDr0:e0,lC0:0",                  // the embargoed result is released before the Disembargo comes back
 	"1lB,pRQ0:boot:s1,lC0:5:k0,lP0:0:0,pRQ0:ok:r0,lH0:0,lY0,lR1,pDr0:e0,lC0:0",        // … all of its references are
 	"1lB,pRQ0:boot:s1,lC0:5:k0,lP0:0:0,pRQ0:ok:r0,lH0:0,lY0,pDr0:e0,lC1:0,lR1",        // … or one survives and is used afterwards
@@ -2131,6 +2134,18 @@ var rpcDirected = []string{
 }
 
 func genRPCCheck(rec *lib.Rec, r *lib.Rng, n int, hostile, faults bool) {
+	// every directed scenario once on its own (a random continuation may contain hostile or fault ops, which switch the
+	// table comparisons off), spread over the shards
+	for k, d := range rpcDirected {
+		if k%Shards != Shard {
+			continue
+		}
+		boot := "1"
+		if strings.HasPrefix(d, "0") {
+			boot = "0"
+		}
+		rec.Op("S", "rpc check "+boot+" "+strings.TrimPrefix(strings.TrimPrefix(d, "1"), "0"), true)
+	}
 	for i := 0; i < n; i++ {
 		s := mixedScript(r, 4+r.Intn(20), hostile, faults)
 		boot := r.Pick(1, 1, 0)
